@@ -450,6 +450,8 @@ class ExprMixin:
                 if (c + "." + attr) in self.reg.contracts:
                     return [(st, VFunc("contract", c + "." + attr, self_val=b, qn=c + "." + attr))]
         if b.cls is not None and not cx.spec and self.repo.classes().get(self.repo.canonical(c0 or b.cls)) is not None:
+            if self.repo.instance_attr_assigned(self.repo.canonical(c0 or b.cls), attr):
+                raise Unsupported("attribute %s is assigned in class %s but is not declared in the heap schema (contracts/schema.py)" % (attr, c0 or b.cls))
             # python semantics: no such attribute on an instance of this class
             self.raise_(cx, st, "builtins.AttributeError")
             return []
